@@ -930,8 +930,8 @@ def gen_c13(tier, seed):
     p_add(insts, "C13", "src_nested_u16x2", "quick", "U16x2", "None", 3, 3, 3, 2, None, C, ("long", 2), src=("nested",), mem=14)
     p_add(insts, "C13", "src_owned_f32_nearest", "quick", "F32", "None", 4, 3, 2, 2, None, ("Nearest",), ("cropped", 3, 3, 1, 1), src=("owned",))
     if tier == "thorough":
-        p_add(insts, "C13", "src_cropped_flush_u8x3_avx2", "thorough", "U8x3", "Avx2", 4, 3, 2, 2, None, C, ("exact",), src=("cropped", 5, 4, 1, 1))
-        p_add(insts, "C13", "src_cropped_u16_avx2", "thorough", "U16", "Avx2", 4, 3, 2, 2, (0.5, 0, 3, 3), C, ("cropped", 4, 4, 1, 2), src=("cropped", 6, 4, 2, 1))
+        p_add(insts, "C13", "src_cropped_flush_u8x3_avx2", "thorough", "U8x3", "Avx2", 4, 3, 2, 2, None, C, ("exact",), src=("cropped", 5, 4, 1, 1), mem=20, t=3600)
+        p_add(insts, "C13", "src_cropped_u16_avx2", "thorough", "U16", "Avx2", 4, 3, 2, 2, (0.5, 0, 3, 3), C, ("cropped", 4, 4, 1, 2), src=("cropped", 6, 4, 2, 1), mem=20, t=3600)
         p_add(insts, "C13", "src_owned_u8x2", "thorough", "U8x2", "Sse4_1", 4, 3, 2, 2, None, C, ("exact",), src=("owned",))
         p_add(insts, "C13", "src_cropped_u16x4_nearest", "thorough", "U16x4", "None", 3, 3, 4, 2, (0.5, 0.5, 2, 2), ("Nearest",), ("exact",), src=("cropped", 4, 5, 1, 2))
     rel = """// @h c13_rel_nearest_view_vs_owned | prop=C13 | tier=quick | t=1200 | mem=8 | flags=stub --no-assertion-reach-checks --no-memory-safety-checks --no-overflow-checks | enc=Resizer::resize_typed x2 -> resample_nearest, ImageView::iter_rows_with_step (default impl for TypedCroppedImage, specialisation for TypedImageRef) | bounds=symbolic: all 6 parent pixels (U8) and both destinations; enumerated: view 1x4 at (0,1) of a 1x6 parent vs an owned copy of the same region, Nearest to 1x7 (a destination centre falls exactly on a source row boundary); unwind 9 | assume=none
